@@ -162,5 +162,69 @@ Proof.
   split; [exact (proj1 (fat_mirrored_get _ v fsz c Hm Hc))|exact (proj1 (fat_mirrored_get _ v fsz c Hm' Hc))].
 Qed.
 
+(* ================================================================== 3. the example *)
+Fixpoint nrange (n : nat) (from : N) : list N :=
+  match n with O => [] | S k => from :: nrange k (from + 1) end.
+
+Definition ex_op : op := Write 7 (repeat 9 1200).
+Definition ex_s' : st := snd (step ex_op gx_state).
+(* all 256 entries of the one FAT sector / all blocks of the device up to the end of the partition *)
+Definition ex_changed_entries : list N :=
+  filter (fun c => negb (fat_get (s_disk ex_s') exd_vol 0 c =? fat_get (s_disk gx_state) exd_vol 0 c)) (nrange 256 0).
+Definition ex_changed_blocks : list N :=
+  filter (fun j => negb (list_eqb (disk_get (s_disk ex_s') j) (disk_get (s_disk gx_state) j))) (nrange 1100 0).
+
+Example frame_example :
+  step ex_op gx_state = (Ok RUnit, ex_s') /\
+  (* exactly the entries of the end of the target's chain and of the new cluster differ *)
+  ex_changed_entries = [6; 7] /\
+  (* the FAT sector, the two blocks of cluster 6, the first block of cluster 7 *)
+  ex_changed_blocks = [11; 38; 39; 40] /\
+  chain_l (s_disk gx_state) exd_vol 6 = [6] /\ chain_l (s_disk ex_s') exd_vol 6 = [6; 7] /\
+  free_cl (s_disk gx_state) exd_vol 7 /\
+  cluster_blocks exd_vol 6 = [38; 39] /\ cluster_blocks exd_vol 7 = [40; 41] /\
+  (* the hypotheses of fat_frame_all / data_frame_all hold, 6 is a target and a (pending) head *)
+  id_fresh gx_state /\ op_known_ok ex_op /\ targets gx_state exd_vol ex_op 6 /\
+  (exists vi bl rch T, fs_inv_at 1 0 gx_state vi exd_vol bl rch T /\
+     In 6 (heads exd_vol T ++ pend_of gx_state exd_vol)) /\
+  (* and their conclusions, instantiated *)
+  (forall c, fidx exd_vol 1 c -> fat_get (s_disk ex_s') exd_vol 0 c <> fat_get (s_disk gx_state) exd_vol 0 c ->
+     2 <= c /\ c < v_clusters exd_vol + 2) /\
+  (forall j, PrGlobalOpen2.off_fat exd_vol 1 j -> disk_get (s_disk ex_s') j <> disk_get (s_disk gx_state) j ->
+     (exists h, targets gx_state exd_vol ex_op h /\ In j (data_blocks exd_vol (chain_l (s_disk gx_state) exd_vol h))) \/
+     (exists c, free_cl (s_disk gx_state) exd_vol c /\ In j (cluster_blocks exd_vol c))).
+Proof.
+  assert (E : step ex_op gx_state = (Ok RUnit, ex_s')) by (vm_compute; reflexivity).
+  split; [exact E|].
+  split; [vm_compute; reflexivity|]. split; [vm_compute; reflexivity|].
+  split; [vm_compute; reflexivity|]. split; [vm_compute; reflexivity|].
+  split; [repeat split; vm_compute; congruence|].
+  split; [vm_compute; reflexivity|]. split; [vm_compute; reflexivity|].
+  split; [exact PrGlobalOpen2.gx_fresh|]. split; [repeat split|].
+  assert (Ht : targets gx_state exd_vol ex_op 6).
+  { cbn [targets ex_op]. exists gx_fileB. split; [split; [left; reflexivity|reflexivity]|reflexivity]. }
+  split; [exact Ht|].
+  destruct (proj1 fs_inv_example) as (vi & v & bl & rch & T & Hat).
+  assert (Ev : v = exd_vol).
+  { pose proof (fi_single _ _ _ _ _ _ _ _ Hat) as Es. change (s_vols gx_state) with [exd_vol] in Es. injection Es as <-. reflexivity. }
+  subst v.
+  assert (H6 : In 6 (heads exd_vol T ++ pend_of gx_state exd_vol)).
+  { apply in_or_app. right. rewrite (proj2 fs_inv_example). left. reflexivity. }
+  split; [exists vi, bl, rch, T; split; [exact Hat|exact H6]|].
+  split.
+  - intros c Hc Hne.
+    destruct (fat_frame_all 1 0 ex_op gx_state _ ex_s' vi exd_vol bl rch T Hat PrGlobalOpen2.gx_fresh ltac:(repeat split) E)
+      as (vi' & v' & bl' & rch' & T' & _ & _ & Ha & _).
+    destruct (Ha c Hc Hne) as (C1 & C2 & _). split; assumption.
+  - intros j Hj Hne.
+    destruct (data_frame_all 1 0 ex_op gx_state _ ex_s' vi exd_vol bl rch T Hat PrGlobalOpen2.gx_fresh ltac:(repeat split) E) as (Ha & _).
+    destruct (Ha j Hj Hne) as [(_ & h & _ & Hth & Hin)|[H|[(off & b & (tg & wch & Hown) & _)|(Hi & _)]]].
+    + left. exists h. split; assumption.
+    + right. exact H.
+    + cbn [op_owns ex_op] in Hown. destruct Hown as (Hsl & _). discriminate Hsl.
+    + discriminate Hi.
+Qed.
+
 Print Assumptions write_range.
 Print Assumptions fat_frame_copies.
+Print Assumptions frame_example.
